@@ -38,7 +38,38 @@ def check(t, expect, what, fails):
     return True
 
 
+def encoder_run():
+    """one Encoder through 70 000 blocks that each insert a new small field (sequence numbers, ages and insertion counters
+    past 2^16): at checkpoints the three newest fields are sent again and must each go out as ONE indexed field -- 62, 63,
+    64 -- and a field evicted long ago must go out as a literal"""
+    from hpack import Encoder
+    fails, n = [], 0
+    e = Encoder()
+    last = []
+    for j in range(70000):
+        f = (b'x-seq', b'%d' % j)
+        e.encode([f], huffman=False)
+        last = ([f] + last)[:3]
+        n += 1
+        if j >= 3 and (j % 4999 == 0 or 65530 <= j <= 65545 or j in (32767, 32768, 32769, 69999)):
+            out = bytes(e.encode(last, huffman=False))
+            n += 1
+            if out != b'\xbe\xbf\xc0':
+                fails.append({'sig': 'not-indexed', 'text': 'after %d insertions on one Encoder the three newest fields %r, sent again, were encoded as %s (each is in the table: expected the three indexed fields be bf c0)' % (j + 1, last, out.hex())})
+                break
+            if j > 6000:
+                gone = (b'x-seq', b'%d' % (j - 5000))          # evicted thousands of insertions ago, never sent since
+                old = bytes(e.encode([gone], huffman=False))
+                n += 1
+                if len(old) == 1:
+                    fails.append({'sig': 'stale-index', 'text': 'after %d insertions the field %r, evicted long ago, was sent as the index %s' % (j + 1, gone, old.hex())}); break
+                last = ([gone] + last)[:3]
+    print(json.dumps({'evaluations': n, 'failures': fails[:2]}))
+
+
 def main():
+    if len(sys.argv) > 1 and sys.argv[1] == 'encoder':
+        return encoder_run()
     fails, n = [], 0
     V = bytes(1 << 24)
     t = HeaderTable()
